@@ -618,5 +618,13 @@ pub fn run(cfg: &Cfg, rep: &mut Report) {
         let e = Error::custom(code, msg);
         check_error_item(ctx, e);
         check_error_item(ctx, e.extended(ext));
+        // relations between the two texts: extended text equal to the description, a prefix of it, empty
+        check_error_item(ctx, e.extended(msg));
+        check_error_item(ctx, e.extended(&msg[..msg.len() / 2]));
+        check_error_item(ctx, e.extended(b""));
+        // the same for a standard error wrapped with its own description as device-dependent info
+        let std_codes: [ErrorCode; 6] = [ErrorCode::InvalidExpression, ErrorCode::DataOutOfRange, ErrorCode::NoError, ErrorCode::QueueOverflow, ErrorCode::SyntaxError, ErrorCode::OperationComplete];
+        let sc = *rng.pick(&std_codes);
+        check_error_item(ctx, Error::new(sc).extended(sc.get_message()));
     });
 }
